@@ -52,13 +52,24 @@ def cases(tier, rng):
             s = _addr(ty, net, h[:19])
         elif r < 0.85:
             s = _addr(ty, net, h + bytes([rng.getrandbits(8)]))
-        elif r < 0.9:
+        elif r < 0.88:
             i = rng.randrange(len(a)); s = a[:i] + rng.choice("0OIl _-") + a[i + 1:]
+        elif r < 0.9:
+            # a valid address wrapped in characters that are not Base58 (white space, NUL, quotes)
+            pad = rng.choice(["\n", " ", "\t", "\r\n", "\x00", "'", '"', "\u00a0"])
+            s = rng.choice([a + pad, pad + a, pad + a + pad])
         elif r < 0.95:
             s = rng.choice([a[:25], a[:-1], a + "1", a + "11", "1" + a, "1" * rng.randrange(25, 37)])
         else:
             s = a
         yield {"k": "dec", "ty": ty, "net": net, "s": s}
+    # one string decoded under several networks in one process (a decision must not be remembered across networks)
+    for _ in range(40 if tier == "quick" else 1500):
+        ty = rng.choice(["p2pkh", "p2sh"]); net = rng.choice(NETS)
+        a = _addr(ty, net, bytes(rng.getrandbits(8) for _ in range(20)))
+        order = [rng.choice(NETS) for _ in range(rng.randrange(2, 5))]
+        if net not in order: order.insert(rng.randrange(len(order) + 1), net)
+        yield {"k": "dhist", "ty": ty, "net": net, "s": a, "nets": order}
     # addresses from public keys, both encodings requested on one object in both orders
     N = 0xFFFFFFFFFFFFFFFFFFFFFFFFFFFFFFFEBAAEDCE6AF48A03BBFD25E8CD0364141
     for _ in range(60 if tier == "quick" else 2000):
@@ -83,6 +94,13 @@ def impl(d):
         except Exception as e:
             h = "ACCEPTED_BUT_NO_HASH:" + type(e).__name__
         return "1|" + h
+    if k == "dhist":
+        cls = P2pkhAddress if d["ty"] == "p2pkh" else P2shAddress
+        out = []
+        for net in d["nets"]:
+            setup(net)
+            out.append(guarded(lambda: "1|" + cls(address=d["s"]).to_hash160()))
+        return "|".join(out)
     if k == "pk":
         pk = PrivateKey(secret_exponent=d["d"]).get_public_key()
         out = []
@@ -101,6 +119,8 @@ def model(d):
         return sx("addr_enc_dec", d["ty"], d["net"], bytes.fromhex(d["h"]))
     if k == "dec":
         return sx("addr_from_string", d["ty"], d["net"], d["s"].encode())
+    if k == "dhist":
+        return [sx("addr_from_string", d["ty"], net, d["s"].encode()) for net in d["nets"]]
     if k == "pk":
         import refbip341
         pq = list(refbip341.pub_xy(d["d"]))
@@ -110,6 +130,9 @@ def model(d):
 def post(d, out):
     if d["k"] == "dec" and out.startswith("0|"):
         return "ERR"
+    if d["k"] == "dhist":
+        t = out.split("|")
+        return "|".join("ERR" if t[i] == "0" else "1|" + t[i + 1] for i in range(0, len(t), 2))
     return out
 
 
